@@ -65,22 +65,22 @@ Theorem C07_enum_reject : forall (p : profile) (mid : bytes) (c : opcall),
 Proof. exact c07_enum_reject. Qed.
 Print Assumptions C07_enum_reject.
 
-(* Partial (per construction, not yet per operation): the two constructions through which every
-   caller string enters a request carry it verbatim — as the single text node of its element,
-   or as the local name of the datastore element — or refuse it locally (characters lxml rejects). *)
-Theorem C07_carries_leaf_partial : forall (q : qname) (s : bytes) (t : tree),
+(* The two constructions through which every caller string enters a standard request carry it verbatim — as the
+   single text node of its element, or as the local name of the datastore element — or refuse it locally
+   (characters lxml rejects).  The per-operation statement is C07_carries below. *)
+Theorem C07_carries_leaf : forall (q : qname) (s : bytes) (t : tree),
   leaf q s = POk t -> xml_chars_ok s = true /\ t = Elem q [] (match s with [] => [] | _ => [Text s] end)
                       /\ (s <> [] -> texts t = [s]).
 Proof. exact c07_carries_leaf. Qed.
-Print Assumptions C07_carries_leaf_partial.
+Print Assumptions C07_carries_leaf.
 
-Theorem C07_carries_ds_partial : forall (wha : bytes) (d : dsarg) (t : tree),
+Theorem C07_carries_ds : forall (wha : bytes) (d : dsarg) (t : tree),
   ds_node wha d = POk t ->
   exists loc lx, d = DsStr loc lx /\
     (if contains loc s_css then texts t = (match loc with [] => [] | _ => [loc] end) /\ locals t = [wha; s_url]
      else lx = true /\ locals t = [wha; loc] /\ texts t = []).
 Proof. exact c07_carries_ds. Qed.
-Print Assumptions C07_carries_ds_partial.
+Print Assumptions C07_carries_ds.
 
 (* ---------------- non-vacuity and the open finding ---------------- *)
 Definition P_default := {| p_ns := Prefixed; p_iosxe := false |}.
@@ -351,4 +351,141 @@ Example C07_ns_redundant_decl_refuted :
   /\ option_map (lookup (lit "if"%string)) (scope_at [(nx_nc, nx_B)] (place [(nx_nc, nx_B)] doc) [0%nat]) = Some None
   /\ option_map (lookup (lit "if"%string)) (scope_at nx_env (place nx_env doc) [0%nat])
      = Some (Some (lit "http://www.cisco.com/nxos:1.0:if_manager"%string)).
+Proof. vm_compute. repeat split; reflexivity. Qed.
+
+(* ------------------------------------------------------------------------------------------ *)
+(* CARRIES — every operation, every argument record: the request carries each caller value exactly once, at its
+   documented position, unaltered, and nothing else in the request depends on it.
+   Spec/Template.v: request templates with numbered holes and their instantiation [fill] (parametric in the values);
+   Spec/CarriesBase.v / Spec/CarriesVendor.v: the tables — per operation the caller's values in document order
+   ([values]), the call with all caller data forgotten ([erase]: what is left is the operation, which optional
+   arguments are present and the class of a value that decides the shape), and the template of the erased call. *)
+From Coq Require Import List.
+From NC Require Import Spec.Template Spec.CarriesBase Spec.CarriesVendor.
+From NC Require Import Proofs.TemplateProofs Proofs.CarriesProofs Proofs.CarriesVendorProofs.
+
+(* the 19 standard operations, all profiles: the operation element is the template of the erased call with the
+   caller's values in its holes, and the holes are 0 … n-1 in document order — each value fills exactly one hole, each
+   hole takes exactly one value; all the rest of the request is the fixed text of a template chosen without looking
+   at any caller string or fragment.  ([wrap]: the envelope; under a default-namespace envelope the reader's rule R3.) *)
+Theorem C07_carries : forall (p : profile) (mid : bytes) (c : opcall) (t : tree),
+  build p mid c = Built t ->
+  exists op, t = wrap p mid op
+             /\ fill (values c) (template p (erase c)) = [op]
+             /\ holes (template p (erase c)) = seq 0 (length (values c)).
+Proof. exact c07_carries. Qed.
+Print Assumptions C07_carries.
+
+(* the 30 vendor classes, as built in memory; [vwrap] is the envelope as an independent reader sees it (R1-R3,
+   C07_vendor_fragment_verbatim) *)
+Theorem C07_vendor_carries : forall (mid : bytes) (c : vcall) (t : tree),
+  vbuild mid c = VBuilt t ->
+  exists op, t = vwrap (vmode (vcall_prof c)) mid op
+             /\ fill (vvalues c) (vtemplate (verase c)) = [op]
+             /\ holes (vtemplate (verase c)) = seq 0 (length (vvalues c)).
+Proof. exact c07_vendor_carries. Qed.
+Print Assumptions C07_vendor_carries.
+
+(* an instance depends on the values only through the holes of the template: two value lists that agree on the
+   holes of t give the same trees — in particular a part of a request whose template does not contain hole i is
+   the same whatever argument i is *)
+Theorem C07_fill_only_holes : forall (t : tpl) (vs vs' : list value),
+  (forall i, In i (holes t) -> nth_error vs i = nth_error vs' i) -> fill vs t = fill vs' t.
+Proof. exact fill_only_holes. Qed.
+Print Assumptions C07_fill_only_holes.
+
+Theorem C07_fill_independent : forall (t : tpl) (i : nat) (vs vs' : list value),
+  ~ In i (holes t) -> (forall j, j <> i -> nth_error vs j = nth_error vs' j) -> fill vs t = fill vs' t.
+Proof.
+  intros t i vs vs' Hn Hj. apply fill_only_holes. intros j Hin. apply Hj. intros ->. now apply Hn.
+Qed.
+Print Assumptions C07_fill_independent.
+
+(* two calls that differ only in caller data (same erasure) are instances of ONE template *)
+Theorem C07_carries_same_template : forall (p : profile) (mid : bytes) (c c' : opcall) (t t' : tree),
+  erase c = erase c' -> build p mid c = Built t -> build p mid c' = Built t' ->
+  exists T op op', t = wrap p mid op /\ t' = wrap p mid op'
+    /\ fill (values c) T = [op] /\ fill (values c') T = [op']
+    /\ holes T = seq 0 (length (values c)) /\ length (values c') = length (values c).
+Proof. exact c07_carries_same_template. Qed.
+Print Assumptions C07_carries_same_template.
+
+Theorem C07_vendor_carries_same_template : forall (mid : bytes) (c c' : vcall) (t t' : tree),
+  verase c = verase c' -> vbuild mid c = VBuilt t -> vbuild mid c' = VBuilt t' ->
+  exists T op op', t = vwrap (vmode (vcall_prof c)) mid op /\ t' = vwrap (vmode (vcall_prof c')) mid op'
+    /\ fill (vvalues c) T = [op] /\ fill (vvalues c') T = [op']
+    /\ holes T = seq 0 (length (vvalues c)) /\ length (vvalues c') = length (vvalues c).
+Proof. exact c07_vendor_carries_same_template. Qed.
+Print Assumptions C07_vendor_carries_same_template.
+
+(* the reader's rule R3 under a default-namespace envelope renames un-namespaced elements only: every text, attribute
+   value and local name of the request survives it *)
+Theorem C07_adopt_preserves : forall t : tree, texts (adopt t) = texts t /\ locals (adopt t) = locals t.
+Proof. exact adopt_texts_locals. Qed.
+Print Assumptions C07_adopt_preserves.
+
+(* ---------------- non-vacuity: the tables on concrete calls ---------------- *)
+Definition q_ (ns l : string) : qname := qn (lit ns) (lit l).
+Definition B_ (l : string) : qname := b_ (lit l).
+
+Example C07_ex_carries_edit_config :
+  let c := ex_edit (b_ s_config) in
+  erase c = OEditConfig (DsStr s_css true) (Some []) (Some []) (Some []) (CfgXml (Text []))
+  /\ values c = [VStr (lit "http://h/x"%string); VStr s_merge; VStr s_test_only; VStr s_rollback_on_error; VTree (ex_cfg (b_ s_config))]
+  (* the documented positions: target/url text, the three option leaves, the caller's <config> element as a child *)
+  /\ hole_paths [] (template P_default (erase c))
+     = [(0%nat, [B_ "edit-config"; B_ "target"; B_ "url"]); (1%nat, [B_ "edit-config"; B_ "default-operation"]);
+        (2%nat, [B_ "edit-config"; B_ "test-option"]); (3%nat, [B_ "edit-config"; B_ "error-option"]); (4%nat, [B_ "edit-config"])]
+  /\ match fill (values c) (template P_default (erase c)) with
+     | [op] => build P_default (lit "m1"%string) c = Built (wrap P_default (lit "m1"%string) op)
+     | _ => False
+     end.
+Proof. vm_compute. repeat split; reflexivity. Qed.
+
+(* a datastore NAME is the name of an element; an XPath expression an attribute value; dispatch: the caller's own element
+   with the builder's children appended after the caller's *)
+Example C07_ex_carries_positions :
+  hole_paths [] (template P_default (erase (OGetConfig (DsStr (lit "running"%string) true) (Some (FXpath (lit "/a[b='<']"%string))) (Some s_m_trim))))
+    = [(0%nat, [B_ "get-config"; B_ "source"; name_step]); (1%nat, [B_ "get-config"; B_ "filter"; at_ (lit "select"%string)]);
+       (2%nat, [B_ "get-config"; qn NS_WD s_with_defaults])]
+  /\ (let c := ODispatch (CmdTree (Elem (q_ "urn:x" "do") [] [Elem (q_ "urn:x" "arg") [] [Text (lit "1"%string)]]))
+                         (Some (DsStr (lit "running"%string) true)) (Some (FSubtree (Elem (q_ "urn:y" "top") [] []))) in
+      hole_paths [] (template P_default (erase c)) = [(0%nat, []); (1%nat, [name_step; B_ "source"; name_step]); (2%nat, [name_step; B_ "filter"])]
+      /\ fill (values c) (template P_default (erase c))
+         = [Elem (q_ "urn:x" "do") []
+              [Elem (q_ "urn:x" "arg") [] [Text (lit "1"%string)];
+               Elem (B_ "source") [] [Elem (B_ "running") [] []];
+               Elem (B_ "filter") [(a_ s_type, s_subtree)] [Elem (q_ "urn:y" "top") [] []]]]
+      /\ build P_default (lit "m1"%string) c
+         = Built (wrap P_default (lit "m1"%string) (hd (Text []) (fill (values c) (template P_default (erase c)))))).
+Proof. vm_compute. repeat split; reflexivity. Qed.
+
+(* two calls that differ in every caller string and fragment have the same erasure, hence the same template *)
+Example C07_ex_carries_same_template :
+  erase (ex_edit (b_ s_config))
+  = erase (OEditConfig (DsStr (lit "ftp://other/<&>"%string) true) (Some s_none) (Some s_set) (Some s_stop_on_error)
+                       (CfgXml (Elem (b_ s_config) [] [])))
+  /\ erase (ex_edit (b_ s_config)) <> erase (OEditConfig (DsStr (lit "candidate"%string) true) (Some s_none) (Some s_set) (Some s_stop_on_error)
+                                                         (CfgXml (Elem (b_ s_config) [] []))).
+Proof. split; [vm_compute; reflexivity|vm_compute; discriminate]. Qed.
+
+Example C07_ex_vendor_carries_template :
+  (* junos load_configuration(action='set', config=[…]): the list joined with LF is the text of configuration-set; the action an attribute *)
+  (let c := VJLoadConfiguration s_xml s_set (JList [lit "set a<"%string; lit "set b"%string]) in
+   vvalues c = [VStr s_set; VStr (lit "set a<"%string ++ [10%N] ++ lit "set b"%string)]
+   /\ hole_paths [] (vtemplate (verase c))
+      = [(0%nat, [B_ "load-configuration"; at_ (lit "action"%string)]); (1%nat, [B_ "load-configuration"; B_ "configuration-set"])]
+   /\ match fill (vvalues c) (vtemplate (verase c)) with
+      | [op] => vbuild vx_mid c = VBuilt (vwrap Prefixed vx_mid op) | _ => False end)
+  (* alu load_configuration(format='cli', target='candidate'): target name, default-operation, the CLI block *)
+  /\ (let c := VALoadConfiguration s_cli (Some s_merge) (DsStr (lit "candidate"%string) true) (Some (EStr (lit "configure <x>"%string))) in
+      hole_paths [] (vtemplate (verase c))
+      = [(0%nat, [B_ "edit-config"; B_ "target"; name_step]); (1%nat, [B_ "edit-config"; B_ "default-operation"]);
+         (2%nat, [B_ "edit-config"; B_ "config"; B_ "config-format-cli-block"])]
+      /\ match fill (vvalues c) (vtemplate (verase c)) with
+         | [op] => vbuild vx_mid c = VBuilt (vwrap DefaultNs vx_mid op) | _ => False end)
+  (* nexus exec_command: one <cmd> per string, in order;  junos commit: 125 s are carried as 3 (minutes) *)
+  /\ fill (vvalues (VNExecCommand [lit "show version"%string; lit "a<b"%string])) (vtemplate (verase (VNExecCommand [lit "x"%string])))
+     = [Elem (qn NS_NXOS s_exec_command) [] [Elem (qn NS_NXOS s_cmd) [] [Text (lit "show version"%string)]; Elem (qn NS_NXOS s_cmd) [] [Text (lit "a<b"%string)]]]
+  /\ vvalues (VJCommit true (TInt 125) (Some (lit "why"%string)) true None true) = [VStr (lit "3"%string); VStr (lit "why"%string)].
 Proof. vm_compute. repeat split; reflexivity. Qed.
